@@ -12,6 +12,7 @@
 # WITHOUT WARRANTIES OR CONDITIONS OF ANY KIND, either express or implied.
 # See the License for the specific language governing permissions and
 # limitations under the License.
+import copy
 import json
 from typing import List
 
@@ -43,3 +44,29 @@ def get_history_cache_key(messages: List[dict]) -> str:
     history_cache_key = ":".join(key_items)
 
     return history_cache_key
+
+
+def get_history_cache_signature(messages: List[dict]) -> List[tuple]:
+    """Compute the exact identity of a sequence of messages.
+
+    The cache key joins the contents of the messages without their roles and without
+    escaping the separator, so different sequences of messages can share a key
+    (e.g. a user message "a:b" and a user message "a" followed by the bot message "b").
+    The signature keeps the role and the payload of every message separately. It is
+    stored next to the cached events and compared on lookup, so that an entry is only
+    used for exactly the sequence of messages it was computed for.
+
+    Args:
+        messages: The list of messages.
+
+    Returns:
+        A list with one (role, content, event) tuple per message.
+    """
+    return [
+        (
+            msg.get("role"),
+            copy.deepcopy(msg.get("content")),
+            copy.deepcopy(msg.get("event")),
+        )
+        for msg in messages
+    ]
